@@ -1,5 +1,7 @@
 import CnbVerif.Lemmas.CleanupSpec
 import CnbVerif.Lemmas.NoAbort
+import CnbVerif.Model.TestRunnerFaults
+import CnbVerif.Lemmas.ContainerBrackets
 /-!
 # C16 — libcnb-test removes every Docker resource and temp dir however the test ends
 
@@ -13,7 +15,9 @@ through docker's reference option grammar.
 
 All statements quantify over **every** scenario (no depth or length bound) and **every** oracle, restricted only where
 stated. "Aborted" is the double fault — a panic inside `Drop for ContainerContext` (a failing `docker rm`) while already
-unwinding — which is outside the property's quantifier; `double_fault_aborts` shows what the model does there.
+unwinding — which is outside the property's quantifier; `double_fault_aborts` shows what the model does there. Every other
+combination of faults (any panics, any failing commands other than `docker rm`) is covered by
+`cleanup_whenever_docker_rm_works`.
 -/
 namespace CnbVerif.C16
 open CnbVerif CnbVerif.Argv CnbVerif.TestRunner CnbVerif.Spec.Cleanup
@@ -47,6 +51,16 @@ theorem detached_containers_force_removed (o : Oracle) (sc : Scenario) : m1 (iss
     have hY : m1 (specLog (tailOf (resourcesFor (nameWord 0)))) = true := by
       simp [specLog, tailOf, m1, startsDetached, runName_other]
     simpa [specLog] using m1_pieces himg hp _ hY
+
+/-- **M1, exactly once after the last use.** Whatever commands fail (any oracle) and wherever the closures panic — for
+every way the run ends, the double-fault abort included: every `docker run --detach` of the log is followed by
+**exactly one** `docker rm` of the container it named (which the reference grammar reads as the forced removal of just
+that container: `rm_recog`), and no command after that `rm` addresses the container again (`--name`, or the container
+argument of exec / logs / port / rm). Stated on the typed commands of the model (`removedOnce`); on the real argv the
+same clause is `Spec.Cleanup.m1x`, judged by the driver on every in-scope run of the implementation. -/
+theorem every_container_removed_exactly_once_after_last_use (o : Oracle) (sc : Scenario) :
+    removedOnce (cmdsOf (run o sc).2.log) = true :=
+  run_removedOnce o sc
 
 /-- **M2.** Unless the run aborted: `docker rmi <image> --force` and `docker volume remove <image>.build-cache
 <image>.launch-cache --force` are each issued exactly once — no earlier command removes an image or a volume — and
@@ -117,6 +131,41 @@ theorem cleanup_under_single_injection (o : Oracle) (sc : Scenario) (h : SingleI
   ⟨detached_containers_force_removed o sc, image_and_volumes_removed_once_after_last_use o sc hna,
     only_generated_names_removed o sc, no_temp_dir_left o sc hna⟩
 
+/-- **C16 on the model, any number of faults.** While `docker rm` itself works, *every* combination of panics (test closure,
+container closures, at any steps) and of failing external commands (pack build, sbom download, `docker run` detached or
+not, logs, logs --follow, port, exec, rmi, volume remove — any subset, any number of times, decided by any oracle) leaves
+nothing behind: every container started detached is force-removed, image and both volumes are force-removed exactly once
+after their last use, only generated names are removed, no temp dir guard stays alive. In particular a `docker logs`
+(or exec / port) that fails inside a container closure is just a panic of that closure: `Drop` still issues the `rm`. -/
+theorem cleanup_whenever_docker_rm_works (o : Oracle) (sc : Scenario) (h : RmNeverFails o) :
+    m1 (issued o sc) = true ∧ m2 image (issued o sc) = true ∧ m3 ownModel [] (issued o sc) = true
+      ∧ (run o sc).2.guards = [] :=
+  have hna := working_docker_rm_never_aborts o sc h
+  ⟨detached_containers_force_removed o sc, image_and_volumes_removed_once_after_last_use o sc hna,
+    only_generated_names_removed o sc, no_temp_dir_left o sc hna⟩
+
+/-- a fault script (`Model/TestRunnerFaults`: the language the harness' stand-in docker/pack executes) whose rules all
+spare `docker rm` never makes a `docker rm` fail — the scripts of the correspondence run that the driver judges are
+exactly instances of `cleanup_whenever_docker_rm_works` -/
+theorem fault_script_sparing_rm (rules : List FRule) (h : rules.all FRule.sparesRm = true) :
+    RmNeverFails (faultOracle rules) := by
+  intro i ctr n
+  have : rules.any (fun r => r.hits i (.rm ctr)) = false := by
+    rw [List.any_eq_false]
+    intro r hr
+    have hs := List.all_eq_true.mp h r hr
+    simp only [FRule.sparesRm, Bool.and_eq_true, bne_iff_ne, ne_eq] at hs
+    have hk : r.kind.selects (.rm ctr) = false := by
+      cases hkind : r.kind <;> simp_all [FKind.selects]
+    simp [FRule.hits, hk]
+  simp [faultOracle, this]
+
+/-- **C16 on the model under every fault script that spares `docker rm`** -/
+theorem cleanup_under_fault_script (rules : List FRule) (sc : Scenario) (h : rules.all FRule.sparesRm = true) :
+    m1 (issued (faultOracle rules) sc) = true ∧ m2 image (issued (faultOracle rules) sc) = true
+      ∧ m3 ownModel [] (issued (faultOracle rules) sc) = true ∧ (run (faultOracle rules) sc).2.guards = [] :=
+  cleanup_whenever_docker_rm_works _ sc (fault_script_sparing_rm rules h)
+
 /-! ### outside the quantifier: the double fault; and non-vacuity -/
 
 def sampleCfg : BuildCfg :=
@@ -153,4 +202,21 @@ example : SingleInjection [⟨sampleCfg, [.startContainer sampleContainer [.logs
 
 example : (run (fun _ _ _ => none) doubleFaultScenario).1 = .panicked := by decide
 
+/-- non-vacuity of the fault-script theorems: the container closure panics **and** every `docker logs`, `docker exec`,
+`docker rmi` fails: the run ends by panic, the container is removed, nothing is left -/
+def brokenLogs : List FRule := [⟨.logs, .all⟩, ⟨.exec, .ctr 1⟩, ⟨.rmi, .all⟩]
+example : brokenLogs.all FRule.sparesRm = true := by decide
+example : (run (faultOracle brokenLogs) [⟨sampleCfg, [.startContainer sampleContainer [.logsNow, .panic]]⟩]).1 = .panicked := by decide
+example : (run (faultOracle brokenLogs) [⟨sampleCfg, [.startContainer sampleContainer [.logsNow, .panic]]⟩]).2.guards = [] := by decide
+/-- the failing `logs_now()` ended the closure (the `panic` step was never reached) and `Drop` issued the `rm`:
+pack build, run, logs, rm, rmi, volume remove -/
+example : (cmdsOf (run (faultOracle brokenLogs) [⟨sampleCfg, [.startContainer sampleContainer [.logsNow, .panic]]⟩]).2.log).length = 6 := by decide
+
+/-- `removedOnce` is falsifiable: a started container without `rm`, one removed twice, one used after its removal -/
+example : removedOnce [.run (startContainerCommand image (nameWord 1) w!"linux/amd64" sampleContainer)] = false := by decide
+example : removedOnce [.run (startContainerCommand image (nameWord 1) w!"linux/amd64" sampleContainer), .rm (nameWord 1), .rm (nameWord 1)] = false := by decide
+example : removedOnce [.run (startContainerCommand image (nameWord 1) w!"linux/amd64" sampleContainer), .rm (nameWord 1), .logs (nameWord 1) false] = false := by decide
+example : removedOnce [.run (startContainerCommand image (nameWord 1) w!"linux/amd64" sampleContainer), .logs (nameWord 1) false, .rm (nameWord 1)] = true := by decide
+
 end CnbVerif.C16
+
